@@ -130,6 +130,17 @@ def unit_modes():
             if not any(all(alg.eval_cond(c, pt_) for c in h1q) for pt_ in s3): continue
             O.append(_fin(core.prove_zero('C18/modes/family1:material_integrand' + tag(k), V1 - U1q * ((1 - eta ** 2) / eta ** 2) * (eta / q), hy + h3 + h1q, ranges=rng,
                                           goal_text='vpart1(eta) d eta == [lambda/(1-lambda) upart1](eta_u) |d eta_u|, eta_u = sqrt(1 - eta^2), lambda = eta_u^2: the v - u integral is the companion of the upart1 integral after the change of variable'), 'v1')); k += 1
+    # translation validation: the extracted integrands against the real functions (module globals set natively)
+    from vc import propkit
+    items = []; exp = []
+    for (e_, x_, t_, ep_) in ((0.37, 0.8, 0.6, 0.5), (0.81, 2.3, 1.7, 1.0), (0.12, 0.05, 0.2, 3.0)):
+        pt = {eta: sp.Rational(str(e_)), X: sp.Rational(str(x_)), TAU: sp.Rational(str(t_)), EPS: sp.Rational(str(ep_))}
+        for fn, P_ in (('upart1', PU1), ('upart2', PU2), ('vpart1', PV1), ('vpart2', PV2)):
+            ex = propkit.expected_from_paths([(q_[0], q_[1]) for q_ in P_], pt)
+            if ex is None: continue
+            items.append({'module': MODNAME, 'name': fn, 'args': [e_], 'globals': {'posx': x_, 'tau': t_, 'epsilon': ep_}}); exp.append(ex)
+    n_, mm = propkit.tv_functions(items, exp, rtol=1e-9)
+    propkit.tv_report(res, 4, n_, mm)
     # vacuity guard: without the exchange term the radiation equation must NOT hold for these modes
     U1, h1, _ = PU1[0]
     probe = core.prove_zero('C18/modes/probe', EPS * sp.diff(U1, TAU) - sp.diff(U1, X, 2), hy + h1, ranges=rng)
